@@ -174,8 +174,23 @@ struct TcpNameserver {
     tcp: Option<tokio::net::TcpStream>,
     tcp_last_send_activity: Instant,
     tcp_last_recv_activity: Instant,
-    /* id on the wire -> (id the caller chose, where to send the reply) */
-    qid2reply: std::collections::HashMap<u16, (u16, Responder<super::dnspkt::DNSPkt>)>,
+    /* id on the wire -> (id the caller chose, the question asked, where to send the reply) */
+    qid2reply: std::collections::HashMap<
+        u16,
+        (
+            u16,
+            super::dnspkt::Question,
+            Responder<super::dnspkt::DNSPkt>,
+        ),
+    >,
+}
+
+/* Does this reply answer that question?  Names compare ASCII case-insensitively. */
+fn same_question(a: &super::dnspkt::Question, b: &super::dnspkt::Question) -> bool {
+    a.qclass == b.qclass
+        && a.qtype == b.qtype
+        && a.qdomain.ends_with(&b.qdomain)
+        && b.qdomain.ends_with(&a.qdomain)
 }
 
 impl TcpNameserver {
@@ -221,7 +236,16 @@ impl TcpNameserver {
     }
 
     async fn send_tcp_reply(&mut self, qid: u16, reply: Result<super::dnspkt::DNSPkt, Error>) {
-        if let Some((orig_qid, resp)) = self.qid2reply.remove(&qid) {
+        /* A reply is only for the query in flight under its id if it answers that query's
+         * question: a stale or repeated reply whose id has since been reused is dropped.
+         */
+        if let (Some((_, question, _)), Ok(pkt)) = (self.qid2reply.get(&qid), &reply)
+            && !same_question(question, &pkt.question)
+        {
+            log::error!("Dropping reply to a question not asked: {:?}", reply);
+            return;
+        }
+        if let Some((orig_qid, _question, resp)) = self.qid2reply.remove(&qid) {
             resp.send(reply.map(|mut pkt| {
                 pkt.qid = orig_qid;
                 pkt
@@ -247,8 +271,10 @@ impl TcpNameserver {
         while self.qid2reply.contains_key(&msg.out_query.qid) {
             msg.out_query.qid = msg.out_query.qid.wrapping_add(1);
         }
-        self.qid2reply
-            .insert(msg.out_query.qid, (orig_qid, msg.out_reply));
+        self.qid2reply.insert(
+            msg.out_query.qid,
+            (orig_qid, msg.out_query.question.clone(), msg.out_reply),
+        );
         if let Some(ref mut tcp_sock) = self.tcp {
             use tokio::io::AsyncWriteExt as _;
             let bytes = msg.out_query.serialise();
@@ -307,7 +333,7 @@ impl TcpNameserver {
     fn tcp_teardown(&mut self, err: Error) {
         self.tcp = None;
         log::trace!("Tearing down {} TCP channel: {}", self.addr, err);
-        for (_qid, (_orig_qid, chan)) in self.qid2reply.drain() {
+        for (_qid, (_orig_qid, _question, chan)) in self.qid2reply.drain() {
             chan.send(Err(Error::TcpConnection(format!(
                 "TCP channel closed before reply: {}",
                 err
